@@ -108,19 +108,138 @@ theorem decoCommit_fields (ctx : Ctx) (d : Nat) (node : DecoNode) (r : BodyRes) 
   unfold decoCommit
   cases r <;> exact ⟨rfl, rfl, rfl, rfl, rfl⟩
 
+/-- did the call return normally (so that its results are committed)? -/
+def BodyRes.commits : BodyRes → Bool
+  | .ok _ _ => true
+  | .dry => true
+  | _ => false
+
 /-- the commit stage touches the constructor table only to set `called` on node `n`, and only after a normal return -/
 theorem ctorCommit_ctors (ctx : Ctx) (n : Nat) (node : CtorNode) (r : BodyRes) (st : St) :
     (ctorCommit ctx n node r st).ctors =
-      if (match r with | .ok _ _ => true | .dry => true | _ => false) then st.ctors.modify n (fun y => { y with called := true })
-      else st.ctors := by
+      if r.commits then st.ctors.modify n (fun y => { y with called := true }) else st.ctors := by
   unfold ctorCommit
-  cases r <;> simp [St.modCtor, St.modScope]
+  cases r <;> simp [St.modCtor, St.modScope, BodyRes.commits]
 
 theorem decoCommit_decos (ctx : Ctx) (d : Nat) (node : DecoNode) (r : BodyRes) (st : St) :
     (decoCommit ctx d node r st).decos =
-      if (match r with | .ok _ _ => true | .dry => true | _ => false) then st.decos.modify d (fun y => { y with state := .called })
-      else st.decos := by
+      if r.commits then st.decos.modify d (fun y => { y with state := .called }) else st.decos := by
   unfold decoCommit
-  cases r <;> simp [St.modDeco, St.modScope]
+  cases r <;> simp [St.modDeco, St.modScope, BodyRes.commits]
+
+/-- the body stage leaves the tables alone -/
+theorem callBody_fields (ctx : Ctx) (who : Who) (fn : Fn) (args : List Val) (st : St) :
+    (callBody ctx who fn args st).2.scopes = st.scopes ∧ (callBody ctx who fn args st).2.ctors = st.ctors ∧
+    (callBody ctx who fn args st).2.decos = st.decos ∧ (callBody ctx who fn args st).2.pgs = st.pgs := by
+  by_cases hd : ctx.cfg.dry = true
+  · rw [callBody_dry ctx hd]; exact ⟨rfl, rfl, rfl, rfl⟩
+  · rw [callBody_spec ctx (by simpa using hd)]; exact afterBody_fields ctx who fn args st
+
+theorem getD_modify' {α : Type} (l : List α) (i j : Nat) (f : α → α) (d : α) :
+    (l.modify i f).getD j d = if i = j ∧ j < l.length then f (l.getD j d) else l.getD j d := by
+  simp only [List.getD_eq_getElem?_getD, List.getElem?_modify]
+  by_cases hj : j < l.length
+  · simp [List.getElem?_eq_getElem hj]
+    split <;> simp_all
+  · have : l[j]? = none := by simp; omega
+    simp [this, hj]
+
+/-- the constructor table after one run of constructor `n`'s function -/
+theorem ctorTail_ctor (ctx : Ctx) (n : Nat) (node : CtorNode) (args : List Val) (st : St) (m : Nat) :
+    (ctorTail ctx n node args st).2.ctor m =
+      if (callBody ctx (.ctor n) node.fn args st).1.commits = true ∧ n = m ∧ m < st.ctors.length
+      then { st.ctor m with called := true } else st.ctor m := by
+  simp only [ctorTail, St.ctor, (runCallback_fields _ _ _ _ _ _).2.1, ctorCommit_ctors,
+    (callBody_fields ctx (.ctor n) node.fn args st).2.1]
+  by_cases hc : (callBody ctx (.ctor n) node.fn args st).1.commits = true
+  · simp only [hc, if_true, getD_modify', true_and]
+  · simp [hc]
+
+theorem ctorTail_decos (ctx : Ctx) (n : Nat) (node : CtorNode) (args : List Val) (st : St) :
+    (ctorTail ctx n node args st).2.decos = st.decos := by
+  simp only [ctorTail, (runCallback_fields _ _ _ _ _ _).2.2.1, (ctorCommit_fields ctx n node _ _).2.2.1,
+    (callBody_fields ctx (.ctor n) node.fn args st).2.2.1]
+
+theorem decoTail_deco (ctx : Ctx) (d : Nat) (node : DecoNode) (args : List Val) (st : St) (m : Nat) :
+    (decoTail ctx d node args st).2.deco m =
+      if (callBody ctx (.deco d) node.fn args st).1.commits = true ∧ d = m ∧ m < st.decos.length
+      then { st.deco m with state := .called } else st.deco m := by
+  simp only [decoTail, St.deco, (runCallback_fields _ _ _ _ _ _).2.2.1, decoCommit_decos,
+    (callBody_fields ctx (.deco d) node.fn args st).2.2.1]
+  by_cases hc : (callBody ctx (.deco d) node.fn args st).1.commits = true
+  · simp only [hc, if_true, getD_modify', true_and]
+  · simp [hc]
+
+theorem decoTail_ctors (ctx : Ctx) (d : Nat) (node : DecoNode) (args : List Val) (st : St) :
+    (decoTail ctx d node args st).2.ctors = st.ctors := by
+  simp only [decoTail, (runCallback_fields _ _ _ _ _ _).2.1, (decoCommit_fields ctx d node _ _).2.2.1,
+    (callBody_fields ctx (.deco d) node.fn args st).2.1]
+
+/-- the events appended by one run of a node's function: nothing or the body's two events, then at most one callback event -/
+theorem ctorTail_log (ctx : Ctx) (n : Nat) (node : CtorNode) (args : List Val) (st : St) :
+    ∃ lb lc, (ctorTail ctx n node args st).2.hist = st.hist ++ (lb ++ lc) ∧
+      (ctorTail ctx n node args st).2.log = st.log ++ (lb ++ lc) ∧
+      ((ctx.cfg.dry = true ∧ lb = []) ∨ (ctx.cfg.dry = false ∧ lb = bodyEvents ctx (.ctor n) node.fn args st)) ∧
+      (lc = [] ∨ ∃ op err rt, lc = [.cb op (.ctor n) node.fn.id err rt]) := by
+  by_cases hd : ctx.cfg.dry = true
+  · obtain ⟨l, h1, h2, h3⟩ := runCallback_log node.cb (.ctor n) node.fn.id st.clock (ctorOutcome ctx node.fn.id .dry).2
+      (ctorCommit ctx n node .dry st)
+    refine ⟨[], l, ?_, ?_, Or.inl ⟨hd, rfl⟩, ?_⟩
+    · simp only [ctorTail, callBody_dry ctx hd, h2, (ctorCommit_fields ctx n node _ _).2.1, List.nil_append]
+    · simp only [ctorTail, callBody_dry ctx hd, h1, (ctorCommit_fields ctx n node _ _).1, List.nil_append]
+    · rcases h3 with h | ⟨op, rt, h⟩
+      · exact Or.inl h
+      · exact Or.inr ⟨_, _, _, h⟩
+  · have hnd : ctx.cfg.dry = false := by simpa using hd
+    obtain ⟨l, h1, h2, h3⟩ := runCallback_log node.cb (.ctor n) node.fn.id st.clock
+      (ctorOutcome ctx node.fn.id (bodyRes ctx node.fn st)).2
+      (ctorCommit ctx n node (bodyRes ctx node.fn st) (afterBody ctx (.ctor n) node.fn args st))
+    refine ⟨bodyEvents ctx (.ctor n) node.fn args st, l, ?_, ?_, Or.inr ⟨hnd, rfl⟩, ?_⟩
+    · simp only [ctorTail, callBody_spec ctx hnd]
+      rw [h2, (ctorCommit_fields ctx n node _ _).2.1]
+      simp [afterBody, List.append_assoc]
+    · simp only [ctorTail, callBody_spec ctx hnd]
+      rw [h1, (ctorCommit_fields ctx n node _ _).1]
+      simp [afterBody, List.append_assoc]
+    · rcases h3 with h | ⟨op, rt, h⟩
+      · exact Or.inl h
+      · exact Or.inr ⟨_, _, _, h⟩
+
+theorem decoTail_log (ctx : Ctx) (d : Nat) (node : DecoNode) (args : List Val) (st : St) :
+    ∃ lb lc, (decoTail ctx d node args st).2.hist = st.hist ++ (lb ++ lc) ∧
+      (decoTail ctx d node args st).2.log = st.log ++ (lb ++ lc) ∧
+      ((ctx.cfg.dry = true ∧ lb = []) ∨ (ctx.cfg.dry = false ∧ lb = bodyEvents ctx (.deco d) node.fn args st)) ∧
+      (lc = [] ∨ ∃ op err rt, lc = [.cb op (.deco d) node.fn.id err rt]) := by
+  by_cases hd : ctx.cfg.dry = true
+  · obtain ⟨l, h1, h2, h3⟩ := runCallback_log node.cb (.deco d) node.fn.id st.clock (decoOutcome ctx node.fn.id .dry).2
+      (decoCommit ctx d node .dry st)
+    refine ⟨[], l, ?_, ?_, Or.inl ⟨hd, rfl⟩, ?_⟩
+    · simp only [decoTail, callBody_dry ctx hd, h2, (decoCommit_fields ctx d node _ _).2.1, List.nil_append]
+    · simp only [decoTail, callBody_dry ctx hd, h1, (decoCommit_fields ctx d node _ _).1, List.nil_append]
+    · rcases h3 with h | ⟨op, rt, h⟩
+      · exact Or.inl h
+      · exact Or.inr ⟨_, _, _, h⟩
+  · have hnd : ctx.cfg.dry = false := by simpa using hd
+    obtain ⟨l, h1, h2, h3⟩ := runCallback_log node.cb (.deco d) node.fn.id st.clock
+      (decoOutcome ctx node.fn.id (bodyRes ctx node.fn st)).2
+      (decoCommit ctx d node (bodyRes ctx node.fn st) (afterBody ctx (.deco d) node.fn args st))
+    refine ⟨bodyEvents ctx (.deco d) node.fn args st, l, ?_, ?_, Or.inr ⟨hnd, rfl⟩, ?_⟩
+    · simp only [decoTail, callBody_spec ctx hnd]
+      rw [h2, (decoCommit_fields ctx d node _ _).2.1]
+      simp [afterBody, List.append_assoc]
+    · simp only [decoTail, callBody_spec ctx hnd]
+      rw [h1, (decoCommit_fields ctx d node _ _).1]
+      simp [afterBody, List.append_assoc]
+    · rcases h3 with h | ⟨op, rt, h⟩
+      · exact Or.inl h
+      · exact Or.inr ⟨_, _, _, h⟩
+
+/-- a successful body execution is one whose results are committed -/
+theorem commits_of_ok_exit (ctx : Ctx) (hnd : ctx.cfg.dry = false) (who : Who) (fn : Fn) (args : List Val) (st : St)
+    (h : exitKind ctx fn (ctx.beh fn.id (st.execCount fn.id)) = .ok) :
+    (callBody ctx who fn args st).1.commits = true := by
+  rw [callBody_spec ctx hnd]
+  obtain ⟨x, len, hr⟩ := (bodyRes_ok_iff ctx fn st).mpr h
+  simp [hr, BodyRes.commits]
 
 end Dig
